@@ -339,6 +339,31 @@ class _rewrite_captured_vars(ast.NodeTransformer):
         self._ignore_stack.pop()
         return v
 
+    def _visit_comprehension(self, node: Any) -> Any:
+        """The target variables of a comprehension hide captured variables of the same name,
+        everywhere but in the first iterable (python evaluates that in the enclosing scope)."""
+        first = node.generators[0]
+        first.iter = self.visit(first.iter)
+        names: List[str] = []
+        self._ignore_stack.append(names)
+        for i, g in enumerate(node.generators):
+            if i > 0:
+                g.iter = self.visit(g.iter)
+            names.extend(n.id for n in ast.walk(g.target) if isinstance(n, ast.Name))
+            g.ifs = [self.visit(c) for c in g.ifs]
+        if isinstance(node, ast.DictComp):
+            node.key = self.visit(node.key)
+            node.value = self.visit(node.value)
+        else:
+            node.elt = self.visit(node.elt)
+        self._ignore_stack.pop()
+        return node
+
+    visit_ListComp = _visit_comprehension
+    visit_GeneratorExp = _visit_comprehension
+    visit_SetComp = _visit_comprehension
+    visit_DictComp = _visit_comprehension
+
     def visit_Call(self, node: ast.Call) -> Any:
         "If the rewritten call turns into an actual function, then we have to bail,"
         old_func = node.func
